@@ -657,3 +657,113 @@ Qed.
 Lemma meta_last_normalised : forall a, meta_last a = true ->
   to_vec (parse a) = meta_normalise a /\ git_norm (meta_normalise a) = git_norm a.
 Proof. intros a H. split; [exact (meta_last_vec a H)|exact (git_norm_meta_last a H)]. Qed.
+
+(* ------------------------------------------------------------------ parse_alias_tokens against git's split_cmdline *)
+
+Lemma git_space_facts c : git_space c = true ->
+  is_ws c = true /\ (c =? c_sq) = false /\ (c =? c_dq) = false /\ (c =? c_bs) = false.
+Proof.
+  unfold git_space. intro H.
+  repeat (apply orb_true_iff in H as [H|H]); apply N.eqb_eq in H; subst c; vm_compute; repeat split.
+Qed.
+
+Lemma is_nil_snoc (cur : list N) c : is_nil (cur ++ [c]) = false.
+Proof. destruct cur; reflexivity. Qed.
+
+(* lockstep simulation of the Rust loop and git's loop, as long as the edge automaton stays silent *)
+Lemma split_sim : forall s words cur q esc ab,
+  (ab = true -> cur = []) ->
+  edge_loop s (is_nil cur) q esc ab = false ->
+  alias_loop s words cur (is_single q) (is_double q) esc = git_loop s words cur q esc ab.
+Proof.
+  induction s as [|c s IH]; intros words cur q esc ab Hab He.
+  - cbn [alias_loop git_loop edge_loop] in *. destruct q; cbn [is_single is_double orb] in *.
+    + destruct esc; [discriminate|]. rewrite He. reflexivity.
+    + destruct esc; reflexivity.
+    + destruct esc; reflexivity.
+  - cbn [alias_loop git_loop edge_loop] in *. destruct esc.
+    { apply IH; [discriminate|rewrite is_nil_snoc; exact He]. }
+    destruct q; cbn [is_single is_double] in *.
+    + (* unquoted *)
+      destruct (git_space c) eqn:Eg.
+      * destruct (git_space_facts c Eg) as (Hw & H1 & H2 & H3). rewrite H1, H2, H3, Hw.
+        destruct ab.
+        -- rewrite (Hab eq_refl) in *. cbn [is_nil] in *.
+           apply (IH words [] QNone false true); [reflexivity|exact He].
+        -- destruct (is_nil cur) eqn:En; [discriminate|].
+           apply (IH (words ++ [cur]) [] QNone false true); [reflexivity|exact He].
+      * destruct (is_ws c) eqn:Ew; [discriminate|].
+        destruct (c =? c_sq) eqn:E1.
+        { apply (IH words cur QSingle false false); [discriminate|exact He]. }
+        destruct (c =? c_dq) eqn:E2.
+        { apply (IH words cur QDouble false false); [discriminate|exact He]. }
+        destruct (c =? c_bs) eqn:E3.
+        { apply (IH words cur QNone true false); [discriminate|exact He]. }
+        apply (IH words (cur ++ [c]) QNone false false); [discriminate|rewrite is_nil_snoc; exact He].
+    + (* inside single quotes *)
+      destruct (c =? c_sq) eqn:E1.
+      { apply (IH words cur QNone false false); [discriminate|exact He]. }
+      apply (IH words (cur ++ [c]) QSingle false false); [discriminate|rewrite is_nil_snoc; exact He].
+    + (* inside double quotes *)
+      destruct (c =? c_dq) eqn:E2.
+      { apply (IH words cur QNone false false); [discriminate|exact He]. }
+      destruct (c =? c_bs) eqn:E3.
+      { apply (IH words cur QDouble true false); [discriminate|exact He]. }
+      apply (IH words (cur ++ [c]) QDouble false false); [discriminate|rewrite is_nil_snoc; exact He].
+Qed.
+
+Lemma alias_edge_no_trim v : alias_edge v = false -> trim_start v = v.
+Proof.
+  unfold alias_edge. destruct v as [|c v]; [reflexivity|]. cbn [edge_loop trim_start].
+  destruct (git_space c) eqn:Eg; [discriminate|].
+  destruct (is_ws c); [discriminate|reflexivity].
+Qed.
+
+Lemma alias_split_agrees : forall v, alias_edge v = false -> is_shell_alias v = false ->
+  parse_alias_tokens v = git_split v.
+Proof.
+  intros v He Hs. unfold parse_alias_tokens, is_shell_alias, git_split in *.
+  rewrite (alias_edge_no_trim v He) in *. rewrite Hs.
+  apply (split_sim v [] [] QNone false false); [discriminate|exact He].
+Qed.
+
+Lemma alias_shell_none : forall v, is_shell_alias v = true -> parse_alias_tokens v = None.
+Proof. intros v H. unfold parse_alias_tokens, is_shell_alias in *. rewrite H. reflexivity. Qed.
+
+(* witnesses: one per edge kind, the two tokenisers really differ there *)
+Definition v_rp : list N := [114; 101; 118; 45; 112; 97; 114; 115; 101].            (* rev-parse *)
+Definition w_empty_quoted : list N := v_rp ++ [32; 34; 34].                          (* rev-parse followed by an empty double-quoted word *)
+Definition w_trailing_bs : list N := v_rp ++ [92].                                   (* rev-parse\ *)
+Definition w_vt : list N := v_rp ++ [11; 97].                                        (* rev-parse<VT>a *)
+Definition w_nbsp : list N := v_rp ++ [160; 97].                                     (* rev-parse<NBSP>a *)
+Definition w_trailing_blank : list N := v_rp ++ [32].                                (* rev-parse<SP> *)
+Definition w_leading_blank : list N := 32 :: v_rp.                                   (* <SP>rev-parse *)
+(* non-trivial values without an edge (sq = single quote, dq = double quote, bs = backslash):
+     sq a bs b sq SP dq c bs dq d dq SP e bs SP f SP SP g sq sq h     and
+     log SP dq --format=%H SP %s dq SP sq x SP y sq *)
+Definition w_ok_quoted : list N :=
+  [39; 97; 92; 98; 39; 32; 34; 99; 92; 34; 100; 34; 32; 101; 92; 32; 102; 32; 32; 103; 39; 39; 104].
+Definition w_ok_format : list N :=
+  [108; 111; 103; 32; 34; 45; 45; 102; 111; 114; 109; 97; 116; 61; 37; 72; 32; 37; 115; 34; 32; 39; 120; 32; 121; 39].
+
+Lemma alias_split_refuted :
+  (alias_edge w_empty_quoted = true /\ parse_alias_tokens w_empty_quoted = Some [v_rp]
+     /\ git_split w_empty_quoted = Some [v_rp; []]) /\
+  (alias_edge w_trailing_bs = true /\ parse_alias_tokens w_trailing_bs = Some [v_rp ++ [92]]
+     /\ git_split w_trailing_bs = None) /\
+  (alias_edge w_vt = true /\ parse_alias_tokens w_vt = Some [v_rp; [97]]
+     /\ git_split w_vt = Some [v_rp ++ [11; 97]]) /\
+  (alias_edge w_nbsp = true /\ parse_alias_tokens w_nbsp = Some [v_rp; [97]]
+     /\ git_split w_nbsp = Some [v_rp ++ [160; 97]]) /\
+  (alias_edge w_trailing_blank = true /\ parse_alias_tokens w_trailing_blank = Some [v_rp]
+     /\ git_split w_trailing_blank = Some [v_rp; []]) /\
+  (alias_edge w_leading_blank = true /\ parse_alias_tokens w_leading_blank = Some [v_rp]
+     /\ git_split w_leading_blank = Some [[]; v_rp]).
+Proof. vm_compute. repeat split. Qed.
+
+Lemma ex_alias_no_edge :
+  alias_edge w_ok_quoted = false /\ is_shell_alias w_ok_quoted = false /\
+  git_split w_ok_quoted = Some [[97; 92; 98]; [99; 34; 100]; [101; 32; 102]; [103; 104]] /\
+  alias_edge w_ok_format = false /\ is_shell_alias w_ok_format = false /\
+  alias_edge v_log_oneline = false.
+Proof. vm_compute. repeat split. Qed.
